@@ -46,7 +46,12 @@ void fiber_fd_closed(int fd);
 
 static int KNB[8], KCLOSED[8];   /* per descriptor: the kernel was told O_NONBLOCK / closed it (for the descriptor-creating shims) */
 #define BLOCKING_MODE(f) (((f) & (IO_FLAG_BLOCKING | IO_FLAG_WAITABLE)) == (IO_FLAG_BLOCKING | IO_FLAG_WAITABLE))
+/* fiber_io_init's allocator: records the request (the table itself is the static TABLE) */
+static size_t init_req_n, init_req_sz; static int init_callocs; static void* init_obj;
+static void* stub_calloc(size_t n, size_t sz) { init_callocs++; init_req_n = n; init_req_sz = sz; return verif_bool() ? 0 : init_obj; }
+#define calloc stub_calloc
 #include "src/fiber_io.c" /* woven real code: fd_info, max_fd, thread_locked, fibershim_* are file-local and reachable here */
+#undef calloc
 
 static struct fiber_fd_info TABLE[TBL];
 static void spec_snap(void) {}
@@ -229,3 +234,19 @@ void h_pipe(void) { init_create(); int r = pipe(SV);
   if (r == 0) VASSERT(kcreate_ok && SV[0] == NEW0 && SV[1] == NEW1 && MANAGED(NEW0) && MANAGED(NEW1) && KCLOSED[NEW0] == 0 && KCLOSED[NEW1] == 0, "C08(pipe): both ends are managed in blocking mode and non-blocking underneath");
   else VASSERT(r < 0 && (!kcreate_ok || (KCLOSED[NEW0] == 1 && KCLOSED[NEW1] == 1)), "C08(pipe): a failed pipe() returns an error and leaves no descriptor open");
   VCANARY("pipe can return"); }
+/* ---- base case: fiber_io_init sizes the descriptor table by the hard descriptor limit (every descriptor the kernel can hand out is inside it) and
+ * starts with every descriptor unmanaged (flags 0: the shims pass such descriptors straight through) ---- */
+static rlim_t LIM; static int rlimit_fails;
+int getrlimit(__rlimit_resource_t res, struct rlimit* r) { if (res != RLIMIT_NOFILE) return -1; rlimit_fails = verif_bool(); if (rlimit_fails) return -1; r->rlim_cur = (rlim_t)verif_pick((unsigned)LIM + 1); r->rlim_max = LIM; return 0; }
+void* dlsym(void* h, const char* name) { return (void*)verif_u64(); }
+void h_io_init(void) {
+  LIM = (rlim_t)verif_pick(TBL) + 1; fd_info = 0; max_fd = 0; init_callocs = 0; init_obj = TABLE;
+  for (int i = 0; i < TBL; i++) TABLE[i].flags_ = 0;   /* calloc zeroes */
+  int r = fiber_io_init();
+  if (r == FIBER_SUCCESS) VASSERT(fd_info == TABLE && max_fd == LIM && init_callocs == 1 && init_req_n * init_req_sz >= (size_t)LIM * sizeof(*fd_info),
+                                  "C08.init: the descriptor table has one zeroed entry for every descriptor below the hard limit, and max_fd is that limit");
+  else VASSERT(r == FIBER_ERROR && fd_info == 0, "C08.init: a failed init leaves no table behind");
+  int again = fiber_io_init();
+  VASSERT(r != FIBER_SUCCESS || (again == FIBER_ERROR && fd_info == TABLE && max_fd == LIM), "C08.init: a second init is refused and keeps the table");
+  VCANARY("io_init can return");
+}
